@@ -25,7 +25,7 @@ LEVEL = "exploration"
 RULE = (
     "Cells = (analytic model, algorithmic configuration) of the standard and "
     "the importance sampler; each cell is run with S Hypothesis-drawn seeds "
-    "(quick: 32 of the 33 cells, 20 seeds for 10 of them - rotating through the "
+    "(quick: 33 of the 34 cells, 20 seeds for about twelve of them - rotating through the "
     "matrix with VERIF_SEED - and 12 for the others; thorough: 100 seeds "
     "each); two cells are killed once and resumed. evaluations = completed "
     "runs. Non-trivial cell: at least 80% of its runs completed and were "
@@ -303,7 +303,7 @@ def run(ctx):
 
 def health(ctx, stats):
     judged = stats.classes.get("nontrivial", 0)
-    need = 28 if ctx.quick else 30
+    need = 30 if ctx.quick else 32
     return [] if judged >= need else [f"only {judged} cells judged"]
 
 
